@@ -348,6 +348,7 @@ for k, v in TEXT_ADD11.items():
 TECH_ADD12 = {
  "C08": "the column table handed to an SSA line parser that computes len(table)-1 is shown non-empty at the call (difference constraints from the dominating tests of the reader)",
  "C07": "the STL character tables (writer entry against reader entry, per code) are also a clause of conversion",
+ "C15": "no library function reached from ApplyLinearCorrection stores a constant into a cue boundary (no clamp on the corrected instants)",
 }
 for k, v in TECH_ADD12.items():
     TECH[k] += "; " + v
